@@ -114,7 +114,7 @@ static int vf_ctx_dangling = 0;
 
 /* Error *printing* (message + backtrace_symbols on every throw) is not part of any property and costs
  * ~100 us per throw; harnesses are linked with -Wl,--wrap=err_full_msg,--wrap=err_simple_msg. */
-static unsigned long long vf_throws = 0;
+static __thread unsigned long long vf_throws = 0; /* per thread: the error hooks run in whichever thread throws */
 void __wrap_err_full_msg(const char *function, const char *file, int line, int error) {
 	(void)function; (void)file; (void)line; (void)error; vf_throws++;
 }
